@@ -233,10 +233,39 @@ STMT_WRAPS = ["{{ # }}", "{% set v = # %}", "{% if # %}y{% endif %}", "{{ [1, #]
               "{% for q in [#] %}{{ q }}{% endfor %}", "{% do # %}", "{% set ns.v = # %}", "{{ (#)|string }}", "{% autoescape # %}x{% endautoescape %}", "{% include # %}"]
 
 
+# constructs whose span covers 2..10 lines: (text, offsets of the first / last line on which the root cause may be reported:
+# the line on which the failing part is written)
+MULTI_PLANTS = [
+    ("{% include [\n 'a',\n 'b',\n 'c',\n 'd',\n 'e'\n] %}", 0, 0),
+    ("{{ nofunc(\n\n\n\n\n) }}", 0, 0),
+    ("{{ nofunc(\n 1,\n 2,\n 3,\n 4,\n 5,\n 6,\n 7,\n 8) }}", 0, 0),
+    ("{{ m['a\nb\nc\nd\ne\nf'].x.y }}", 0, 0),
+    ("{{ s\n |upper\n |nofilter\n |lower\n |trim }}", 2, 2),
+    ("{{ 'multi\nline\nstring\nliteral\nhere' // zero }}", 0, 0),
+    ("{{ (one +\n one +\n one +\n one //\n zero) +\n 1 }}", 0, 4),
+    ("{{ seq|join(\n 1,\n 2,\n 3\n) }}", 0, 0),
+    ("{{ s.nomethod(\n\n\n\n\n\n\n\n\n) }}", 0, 0),
+    ("{% for q in\n\n\n\n one %}{% endfor %}", 0, 4),
+    ("{% set v =\n [1,\n 2,\n one // zero,\n 4,\n 5] %}", 3, 3),
+    ("{% if one and\n not (one in\n zero)\n and 2 %}{% endif %}", 1, 2),
+    ("{% with a = 1,\n b = one // zero,\n c = 3\n %}{% endwith %}", 1, 1),
+    ("{% call nomacro(\n 1,\n 2,\n 3,\n 4) %}\nbody\n{% endcall %}", 0, 0),
+    ("{% call nomacro() %}\nbody {{ 1 }}\n{{ 2 }}\n\n{{ seq|length }}\n{% endcall %}", 0, 0),
+    ("{% autoescape\n\n\n\n\n cfg.mode %}x{% endautoescape %}", 0, 5),
+    ("{{ range(\n 1,\n 2,\n 3,\n 4,\n 5) }}", 0, 0),
+    ("{{ {'a': 1,\n 'b': 2,\n 'c': one // zero,\n 'd': 4}\n }}", 2, 2),
+    ("{% do nofunc(1,\n 2)\n\n\n %}", 0, 0),
+]
+
+
 def build_matrix_groups(chk):
     rng = chk.rng
     constructs = CONSTRUCTS + MORE_CONSTRUCTS
     combos = []
+    for cname, tpls in constructs:
+        for mp in MULTI_PLANTS:
+            for um in ((0, 3) if not chk.thorough else range(4)):
+                combos.append((cname, tpls, mp, um))
     # statement-level plants: the full cross product with the constructs and the undefined modes, always
     for cname, tpls in constructs:
         for pt in STMT_PLANTS:
@@ -248,6 +277,9 @@ def build_matrix_groups(chk):
     combos += ex[rng.below(step)::step]
     groups = []
     for cname, tpls, ptext, um in combos:
+        lo_off = hi_off = 0
+        if isinstance(ptext, tuple):
+            ptext, lo_off, hi_off = ptext
         which = [i for i, t in enumerate(tpls) if "@" in t][0]
         t = tpls[which]
         at = t.index("@")
@@ -267,7 +299,8 @@ def build_matrix_groups(chk):
             nl = rng.choice([1, 3])
             variants.append({"n": nl, "h": 0, "pb": nl * 2, "hb": 0, "at": 0, "where": "top", "pad": "x\n", "tpls": mk([(nl, "x\n"), (1, pre + ptext + post)])})
         api = rng.choice([0, 1] + ([2, 3] if len(tpls) == 1 else []))
-        groups.append({"family": "runtime", "matrix": True, "construct": cname, "plant": ptext, "which": which, "pline": pline, "pend": pline, "pstart": pline,
+        groups.append({"family": "runtime", "matrix": True, "construct": cname, "plant": ptext, "which": which, "pline": pline + lo_off, "pend": pline + hi_off,
+                       "pstart": pline, "sizable": True,
                        "pkind": 0, "flags": (um << 7) | (api << 4) | (rng.choice(WS_ALL) if rng.chance(1, 4) else 0), "variants": variants})
     return groups
 
@@ -365,7 +398,7 @@ def build_lazy_groups(chk):
                 g = {"family": "runtime", "matrix": True, "construct": cname, "plant": bad + " in " + repr(body), "which": which, "pkind": 0,
                      "flags": rng.choice(WS_ALL) if rng.chance(1, 4) else 0, "variants": variants}
                 if on_line:
-                    g.update({"pline": pline, "pend": pline, "pstart": pline})
+                    g.update({"pline": pline, "pend": pline, "pstart": pline, "sizable": True})
                 else:
                     g.update({"pline": 1, "pend": 10 ** 9, "pstart": 1})      # reported where the input ends
                 groups.append(g)
@@ -437,6 +470,31 @@ def build_garbage_groups(chk, token_spans):
 SRC_PREFIXES = ["\ufeff", "\u200b", "\u2060", "a\ufeffb", "\x00", "\ufeff\ufeff", "\ufeffé", "\r\n", "\r", "\ufeff\r\n", "\u200b\r", "\n\ufeff"]
 
 
+SIZES = [33 * 1024, 64 * 1024 + 1, 1024 * 1024]
+
+
+def add_size_variants(chk, groups, num, den):
+    """the same failing template made large: text appended after the end (nothing may change) and, in a second variant, also
+    inserted above (the N-shift)"""
+    rng = chk.rng
+    for g in groups:
+        if not g.get("sizable") or not rng.chance(num, den):
+            continue
+        w = g["which"]
+        base = g["variants"][0]["tpls"]
+        size = rng.choice(SIZES[:2]) if (not chk.thorough or rng.chance(3, 4)) else SIZES[2]
+        line = rng.choice(["padding text line\n", "t€xt é\n", "{{ 1 }} {# c #}\n"])
+        k = size // blen(line) + 1
+        ts = [list(x) for x in base]
+        ts[w] = ts[w] + [(1, "\n"), (k, line)]
+        g["variants"].append({"n": 0, "h": 0, "pb": 0, "hb": 0, "at": 0, "where": "top", "size": size, "tpls": ts})
+        if rng.chance(1, 2):
+            nl = rng.choice([5, 700])
+            ts2 = [list(x) for x in ts]
+            ts2[w] = [(nl, line)] + ts2[w]
+            g["variants"].append({"n": nl, "h": 0, "pb": nl * blen(line), "hb": 0, "at": 0, "where": "top", "pad": line, "size": size, "tpls": ts2})
+
+
 def add_prefix_variants(chk, groups, num, den):
     rng = chk.rng
     for g in groups:
@@ -503,7 +561,7 @@ def build_runtime_groups(chk):
                 oi = rng.choice([i for i in range(len(tpls)) if i != which])
                 on = rng.choice([1, 3, 40])
                 variants.append({"n": 0, "h": 0, "pb": 0, "hb": 0, "at": 0, "other": [oi, on, blen(PADS[0]) * on], "tpls": mk(0, "", "top", "", 0, (oi, on, PADS[0]))})
-            groups.append({"family": "runtime", "construct": cname, "plant": ptext, "which": which, "pline": pline + poff, "pend": pline + ptext.count("\n"), "pstart": pline, "pkind": pkind,
+            groups.append({"family": "runtime", "construct": cname, "plant": ptext, "which": which, "pline": pline + poff, "pend": pline + ptext.count("\n"), "pstart": pline, "pkind": pkind, "sizable": True,
                            "variants": variants})
     return groups
 
@@ -930,6 +988,8 @@ def main():
         groups = (build_syntax_groups(chk) + build_eoi_groups(chk) + build_literal_groups(chk) + build_garbage_groups(chk, gspans) + build_runtime_groups(chk)
                   + build_matrix_groups(chk) + build_lazy_groups(chk) + build_recursion_groups(chk) + build_lineending_groups(chk)
                   + build_expr_groups(chk) + build_fuel_groups(chk))
+        add_size_variants(chk, [g for g in groups if isinstance(g.get("plant"), str) and "\n" in g["plant"] and g.get("sizable")], 1, 2 if chk.thorough else 3)
+        add_size_variants(chk, groups, 1, 8 if chk.thorough else 25)
         add_prefix_variants(chk, groups, 1, 2 if chk.thorough else 4)
         add_prefix_variants(chk, [g for g in groups if g.get("construct", "").startswith("lazy-")], 1, 1)
         tabcases = build_table_cases(chk)
@@ -1161,6 +1221,7 @@ def main():
     chk.cov["groups"] = {f: sum(1 for g in groups if g["family"] == f) for f in ("syntax", "runtime", "expr", "fuel")}
     chk.cov["inserted_lines_tested"] = sorted({v["n"] for g in groups for v in g["variants"]})
     chk.cov["inserted_columns_tested"] = sorted({v["h"] for g in groups for v in g["variants"]})
+    chk.cov["template_sizes_tested"] = dict(collections.Counter(str(v["size"]) for g in groups for v in g["variants"] if "size" in v))
     chk.cov["tokenizer"] = {"cases": len(tokcases), "outside_modelled_fragment": unsupported, "impl_vs_model_disagreements": len(tok_mism),
                             "spec_failures_on_impl_spans": len(tok_spec_fail)}
     chk.cov["tables"] = {"cases": len(tabcases), "impl_vs_model_disagreements": len(tab_mism), "impl_vs_spec": len(tab_bad), "model_vs_spec": len(tab_thm)}
